@@ -14,7 +14,14 @@ and the catalogue of compositions.  Four families of checks, all evaluated on th
   called with valid data (ordinary, empty where the method accepts it, with/without optional arguments) raises
   NotFittedError.
 * fit          -- returns self, sets is_fitted, leaves every constructor parameter (deep get_params, list contents,
-  component objects and their own state) as it was.
+  component objects and their own state) as it was; also with one numeric / boolean constructor argument at a time
+  moved off its default, a second fit, a fit without horizon, components that are already fitted.
+
+Compositions: a hand-written catalogue (depth <= 3) plus generated nestings (every wrapper kind around every leaf and
+around every wrapper kind, a seeded sample of depth 3).
+
+Defects of the unchanged tree are reported under `KF:` keys; each of them only fires for the named class family and the
+named symptom, any other violation of the same clause goes to the ordinary key.
 """
 import copy
 import importlib
@@ -28,7 +35,7 @@ import pandas as pd
 from sklearn.base import BaseEstimator as SkBase
 from sklearn.base import RegressorMixin, clone
 
-from .common import Recorder, ints_from_model, mint
+from .common import Recorder, ints_from_model, mint  # noqa: F401
 
 KF_COLUMN_SET = "KF:column-composites-set-params-list-together-with-component-key-loses-the-component-write"
 KF_WRAPPER = "KF:metric-function-wrapper-bases-keep-func-private-and-rewrite-name"
@@ -177,8 +184,10 @@ def discover():
     if _DISCOVERED is not None:
         return _DISCOVERED
     import sktime
+    import contextlib
+    import io
     classes, broken = {}, []
-    with warnings.catch_warnings():
+    with warnings.catch_warnings(), contextlib.redirect_stdout(io.StringIO()):
         warnings.simplefilter("ignore")
         for _, name, _ in pkgutil.walk_packages(sktime.__path__, prefix="sktime."):
             parts = name.split(".")
@@ -812,8 +821,15 @@ def apply_calls(est, kind, D):
 
     def add(name, desc, *a, **k):
         m = getattr(est, name, None)
-        if callable(m):
-            calls.append((name, f"{name}({desc})", lambda: m(*a, **k)))
+        if not callable(m):
+            return
+        try:
+            inspect.signature(m).bind(*a, **k)      # only calls the method's own signature accepts
+        except TypeError:
+            return
+        except ValueError:
+            pass
+        calls.append((name, f"{name}({desc})", lambda: m(*a, **k)))
 
     if kind == "forecaster":
         add("predict", "")
@@ -917,7 +933,10 @@ def frame_check(R, est, label, snap, when):
     shallow = est.get_params(deep=False)
     mutated += [k for k, v in snap["copies"].items() if k not in changed and k not in mutated and not same(shallow.get(k), v)]
     cname = type(est).__name__
-    ex_txt = f" (e.g. {changed[0]}: {short(before.get(changed[0]), 50)} -> {short(after.get(changed[0]), 50)})" if changed else ""
+    ex_txt = ""
+    if changed:
+        b0, a0 = short(before.get(changed[0]), 50), short(after.get(changed[0]), 50)
+        ex_txt = f" (e.g. {changed[0]}: {b0} -> {a0}{', a different object' if a0 == b0 else ''})"
     if cname == "FeatureUnion" and (changed or mutated):
         # sklearn's FeatureUnion.fit fits the given transformers in place and writes them back into transformer_list
         names = {t[0] for t in before.get("transformer_list", [])}
